@@ -129,6 +129,9 @@ func cmdWorker(args []string) int {
 	repo := fs.String("repo", "/repo", "")
 	capDur := fs.Duration("cap", time.Hour, "")
 	scale := fs.Float64("scale", 1, "")
+	lo := fs.Int("lo", 0, "first case index of this batch")
+	hi := fs.Int("hi", 0, "one past the last case index of this batch (0 = all)")
+	batch := fs.String("batch", "a", "batch label (result file names)")
 	fs.Parse(args)
 	world.RepoDir = *repo
 	p := props.All[*propID]
@@ -140,7 +143,7 @@ func cmdWorker(args []string) int {
 	_ = realStdout
 	devNullStdout()
 	res := &workerResult{Worker: *w}
-	resPath := filepath.Join(*dir, fmt.Sprintf("worker-%d.json", *w))
+	resPath := filepath.Join(*dir, fmt.Sprintf("worker-%s-%d.json", *batch, *w))
 	writeRes := func() {
 		b, _ := json.Marshal(res)
 		os.WriteFile(resPath, b, 0o644)
@@ -158,11 +161,18 @@ func cmdWorker(args []string) int {
 	stats := report.NewStats(bitsFor(*tier))
 	var beacon uint64
 	ctx := props.NewCtx(*tier, stats, corpus, &beacon)
-	total := int(float64(p.Cases(ctx)) * *scale)
-	if total < 1 {
-		total = 1
+	total := p.Cases(ctx)
+	if *hi <= 0 || *hi > total {
+		*hi = total
 	}
-	res.CasesTotal = total
+	// -scale shrinks a batch proportionally (self-tests)
+	if *scale < 1 {
+		*hi = *lo + int(float64(*hi-*lo)**scale)
+		if *hi <= *lo {
+			*hi = *lo + 1
+		}
+	}
+	res.CasesTotal = *hi - *lo
 
 	// watchdog: no progress beacon for hangAfter, or a heap beyond heapLimit,
 	// ends the worker. For a property that itself states termination and
@@ -220,7 +230,7 @@ func cmdWorker(args []string) int {
 	}()
 
 	deadline := time.Now().Add(*capDur)
-	for i := *w; i < total; i += *n {
+	for i := *lo + *w; i < *hi; i += *n {
 		if time.Now().After(deadline) {
 			res.Capped = true
 			break
@@ -268,7 +278,7 @@ func cmdWorker(args []string) int {
 	for i, x := range bm {
 		binary.LittleEndian.PutUint64(buf[8*i:], x)
 	}
-	os.WriteFile(filepath.Join(*dir, fmt.Sprintf("worker-%d.bits", *w)), buf, 0o644)
+	os.WriteFile(filepath.Join(*dir, fmt.Sprintf("worker-%s-%d.bits", *batch, *w)), buf, 0o644)
 	if res.Trouble != "" {
 		return 2
 	}
@@ -385,71 +395,108 @@ func cmdRun(args []string) int {
 	defer os.RemoveAll(dir)
 	fmt.Printf("ivgsim: property=%s tier=%s VERIF_SEED=%d workers=%d repo=%s\n", p.ID, *tier, *seed, *workers, *repo)
 
-	type done struct {
-		w    int
-		err  error
-		code int
+	// Batches: every property has one batch run by this binary; a property
+	// with a race arm has a second one run by the binary built with -race.
+	type batchT struct {
+		label  string
+		bin    string
+		lo, hi int
+		env    []string
 	}
-	ch := make(chan done, *workers)
-	for w := 0; w < *workers; w++ {
-		w := w
-		cmd := exec.Command(os.Args[0], "worker", "-prop", p.ID, "-tier", *tier, "-seed", strconv.FormatUint(*seed, 10),
-			"-w", strconv.Itoa(w), "-n", strconv.Itoa(*workers), "-dir", dir, "-repo", *repo, "-cap", capDur.String(),
-			"-scale", strconv.FormatFloat(*scale, 'g', -1, 64))
-		cmd.Env = append(os.Environ(), "GOMAXPROCS="+strconv.Itoa(*gomaxprocs))
-		cmd.Stderr = os.Stderr
-		go func() {
-			err := cmd.Run()
-			code := 0
-			if ee, ok := err.(*exec.ExitError); ok {
-				code = ee.ExitCode()
-			} else if err != nil {
-				code = -1
-			}
-			ch <- done{w, err, code}
-		}()
-	}
-	trouble := []string{}
-	for i := 0; i < *workers; i++ {
-		d := <-ch
-		if d.code != 0 && d.code != 3 && d.code != 4 {
-			trouble = append(trouble, fmt.Sprintf("worker %d exited with %d (%v)", d.w, d.code, d.err))
+	pctx := props.NewCtx(*tier, nil, nil, nil)
+	if p.NeedsCorpus {
+		world.RepoDir = *repo
+		if c, err := world.LoadCorpus(); err == nil {
+			pctx = props.NewCtx(*tier, nil, c, nil)
 		}
 	}
+	totalCases := p.Cases(pctx)
+	batches := []batchT{{label: "a", bin: os.Args[0], lo: 0, hi: totalCases}}
+	raceNote := ""
+	raceBin := os.Getenv("IVGSIM_RACE_BIN")
+	if p.RaceFrom != nil {
+		from := p.RaceFrom(pctx)
+		batches[0].hi = from
+		if raceBin != "" {
+			logPrefix := filepath.Join(dir, "race")
+			batches = append(batches, batchT{label: "r", bin: raceBin, lo: from, hi: totalCases,
+				env: []string{"GORACE=halt_on_error=0 exitcode=0 log_path=" + logPrefix, "IVGSIM_RACE_LOG=" + logPrefix}})
+			raceNote = "race arm ran with the binary built with -race"
+		} else {
+			raceNote = "race arm NOT run: no binary built with -race was provided (IVGSIM_RACE_BIN); " + os.Getenv("IVGSIM_RACE_NOTE")
+			fmt.Println("ivgsim: " + raceNote)
+		}
+	}
+	trouble := []string{}
 	stats := report.NewStats(bitsFor(*tier))
 	var viols []*report.Violation
 	casesDone, casesTotal, capped := 0, 0, false
 	var digest uint64
-	for w := 0; w < *workers; w++ {
-		b, err := os.ReadFile(filepath.Join(dir, fmt.Sprintf("worker-%d.json", w)))
-		if err != nil {
-			trouble = append(trouble, fmt.Sprintf("worker %d left no result: %v", w, err))
-			continue
+	for _, bt := range batches {
+		type done struct {
+			w    int
+			err  error
+			code int
 		}
-		var r workerResult
-		if err := json.Unmarshal(b, &r); err != nil {
-			trouble = append(trouble, fmt.Sprintf("worker %d result unreadable: %v", w, err))
-			continue
+		ch := make(chan done, *workers)
+		for w := 0; w < *workers; w++ {
+			w := w
+			cmd := exec.Command(bt.bin, "worker", "-prop", p.ID, "-tier", *tier, "-seed", strconv.FormatUint(*seed, 10),
+				"-w", strconv.Itoa(w), "-n", strconv.Itoa(*workers), "-dir", dir, "-repo", *repo, "-cap", capDur.String(),
+				"-scale", strconv.FormatFloat(*scale, 'g', -1, 64), "-lo", strconv.Itoa(bt.lo), "-hi", strconv.Itoa(bt.hi), "-batch", bt.label)
+			cmd.Env = append(append(os.Environ(), "GOMAXPROCS="+strconv.Itoa(*gomaxprocs)), bt.env...)
+			cmd.Stderr = os.Stderr
+			go func() {
+				err := cmd.Run()
+				code := 0
+				if ee, ok := err.(*exec.ExitError); ok {
+					code = ee.ExitCode()
+				} else if err != nil {
+					code = -1
+				}
+				ch <- done{w, err, code}
+			}()
 		}
-		if r.Trouble != "" {
-			trouble = append(trouble, fmt.Sprintf("worker %d: %s", w, r.Trouble))
-		}
-		stats.MergeCounters(r.Counters)
-		for _, s := range r.Samples {
-			stats.Sample(8, s)
-		}
-		viols = append(viols, r.Violations...)
-		casesDone += r.CasesDone
-		casesTotal = r.CasesTotal
-		capped = capped || r.Capped
-		digest += r.Digest
-		if bb, err := os.ReadFile(filepath.Join(dir, fmt.Sprintf("worker-%d.bits", w))); err == nil {
-			bm := make([]uint64, len(bb)/8)
-			for i := range bm {
-				bm[i] = binary.LittleEndian.Uint64(bb[8*i:])
+		for i := 0; i < *workers; i++ {
+			d := <-ch
+			if d.code != 0 && d.code != 3 && d.code != 4 {
+				trouble = append(trouble, fmt.Sprintf("worker %s%d exited with %d (%v)", bt.label, d.w, d.code, d.err))
 			}
-			stats.MergeBitmap(bm)
 		}
+		for w := 0; w < *workers; w++ {
+			b, err := os.ReadFile(filepath.Join(dir, fmt.Sprintf("worker-%s-%d.json", bt.label, w)))
+			if err != nil {
+				trouble = append(trouble, fmt.Sprintf("worker %s%d left no result: %v", bt.label, w, err))
+				continue
+			}
+			var r workerResult
+			if err := json.Unmarshal(b, &r); err != nil {
+				trouble = append(trouble, fmt.Sprintf("worker %s%d result unreadable: %v", bt.label, w, err))
+				continue
+			}
+			if r.Trouble != "" {
+				trouble = append(trouble, fmt.Sprintf("worker %s%d: %s", bt.label, w, r.Trouble))
+			}
+			stats.MergeCounters(r.Counters)
+			for _, s := range r.Samples {
+				stats.Sample(8, s)
+			}
+			viols = append(viols, r.Violations...)
+			casesDone += r.CasesDone
+			capped = capped || r.Capped
+			digest += r.Digest
+			if bb, err := os.ReadFile(filepath.Join(dir, fmt.Sprintf("worker-%s-%d.bits", bt.label, w))); err == nil {
+				bm := make([]uint64, len(bb)/8)
+				for i := range bm {
+					bm[i] = binary.LittleEndian.Uint64(bb[8*i:])
+				}
+				stats.MergeBitmap(bm)
+			}
+		}
+		casesTotal += bt.hi - bt.lo
+	}
+	if *scale < 1 {
+		casesTotal = casesDone
 	}
 	wall := time.Since(start).Seconds()
 
@@ -535,6 +582,9 @@ func cmdRun(args []string) int {
 			"run_digest":                      fmt.Sprintf("%016x", digest),
 			"exhaustive":                      ev.Exhaustive,
 		}
+		if raceNote != "" {
+			cov["race_arm"] = raceNote
+		}
 		if len(stats.Samples) == 0 {
 			cov["samples"] = []interface{}{"(no sample recorded)"}
 		}
@@ -578,9 +628,26 @@ func cmdRun(args []string) int {
 // produced, if it is the wanted invariant.
 func probeChild(p *props.Property, tier, repo, invariant string, tp []uint64) *report.Violation {
 	in, _ := json.Marshal(map[string]interface{}{"tape": tp})
-	cmd := exec.Command(os.Args[0], "probe", "-prop", p.ID, "-tier", tier, "-repo", repo)
+	bin := os.Args[0]
+	env := append(os.Environ(), "GOMAXPROCS=2")
+	if p.RaceFrom != nil && len(tp) > 0 && tp[0]%2 == 1 {
+		// a race-arm case: it only means something in the -race binary
+		rb := os.Getenv("IVGSIM_RACE_BIN")
+		if rb == "" {
+			return nil
+		}
+		d, err := os.MkdirTemp("", "ivgsim-probe-")
+		if err != nil {
+			return nil
+		}
+		defer os.RemoveAll(d)
+		lp := filepath.Join(d, "race")
+		bin = rb
+		env = append(env, "GORACE=halt_on_error=0 exitcode=0 log_path="+lp, "IVGSIM_RACE_LOG="+lp)
+	}
+	cmd := exec.Command(bin, "probe", "-prop", p.ID, "-tier", tier, "-repo", repo)
 	cmd.Stdin = bytes.NewReader(in)
-	cmd.Env = append(os.Environ(), "GOMAXPROCS=2")
+	cmd.Env = env
 	out, err := cmd.Output()
 	if err != nil && len(out) == 0 {
 		return nil
@@ -738,6 +805,30 @@ func cmdReplay(args []string) int {
 	if p == nil {
 		fmt.Fprintln(os.Stderr, "unknown property", v.Property)
 		return 2
+	}
+	if p.RaceFrom != nil && len(v.Tape) > 0 && v.Tape[0]%2 == 1 && !props.RaceEnabled() {
+		// a race-arm case: hand over to the binary built with -race
+		rb := os.Getenv("IVGSIM_RACE_BIN")
+		if rb == "" {
+			fmt.Fprintln(os.Stderr, "replay: this file needs the binary built with -race (IVGSIM_RACE_BIN)")
+			return 2
+		}
+		d, err := os.MkdirTemp("", "ivgsim-replay-")
+		if err != nil {
+			return 2
+		}
+		defer os.RemoveAll(d)
+		lp := filepath.Join(d, "race")
+		cmd := exec.Command(rb, "replay", "-file", *file, "-repo", *repo)
+		cmd.Env = append(os.Environ(), "GOMAXPROCS=1", "GORACE=halt_on_error=0 exitcode=0 log_path="+lp, "IVGSIM_RACE_LOG="+lp)
+		cmd.Stdout, cmd.Stderr = os.Stdout, os.Stderr
+		if err := cmd.Run(); err != nil {
+			if ee, ok := err.(*exec.ExitError); ok {
+				return ee.ExitCode()
+			}
+			return 2
+		}
+		return 0
 	}
 	realStdout := os.Stdout
 	devNullStdout()
